@@ -1429,11 +1429,43 @@ def std_group_validators(c, G, q, h, ref, binary):
                 bad.append('%s (order = q %+d): returned %d, the documented predicate gives %d' % (label, order - q, got, exp))
         if gbad(st):
             bad.append('wrote past %sSeemsValidGroup_deep octets of the stack' % pre)
+        # xxxIsSafeGroup: order prime, order != N0, N0^i != 1 (mod order) for every i <= mov_threshold.  The standard order with several
+        # thresholds, composite multiples of it, and small prime orders r whose embedding degree k = ord_r(N0) is known: the loop bound
+        # is hit from both sides (thresholds k - 1, k, k + 1)
+        sst = gbuf(T, L.sz(pre + 'IsSafeGroup_deep', n))
+        def safe_exp(order, mov):
+            if not RP.is_prime(order) or order == N0:
+                return 0
+            t = 1
+            for i in range(1, mov + 1):
+                t = t * N0 % order
+                if t == 1:
+                    return 0
+            return 1
+        rows = [(q, mov) for mov in (0, 1, 2, 8, 50)] + [(3 * q, 0), (q * q if (q * q).bit_length() <= 8 * (n + 1) * W else 9 * q, 0)]
+        for r in (3, 5, 7, 11, 13, 31, 127, 8191, 131071, 524287, 2147483647):
+            if N0 % r in (0, 1) and not binary:
+                rows += [(r, 0), (r, 1)]; continue
+            k = 1; t = N0 % r
+            while t != 1 and k < 3000:
+                t = t * N0 % r; k += 1
+            if t == 1:
+                rows += [(r, m_) for m_ in sorted({0, max(0, k - 1), k, k + 1})]
+        for order, mov in rows:
+            if order.bit_length() > 8 * (n + 1) * W or not setgroup(order):
+                continue
+            got = L.boolean(pre + 'IsSafeGroup', c.ec, mov, sst); calls += 2
+            exp = safe_exp(order, mov)
+            if got != exp:
+                bad.append('%sIsSafeGroup(order %s, mov_threshold %d) returned %d, the documented predicate gives %d' % (
+                    pre, 'q' if order == q else '%d q' % (order // q) if order % q == 0 else str(order), mov, got, exp))
+        if gbad(sst):
+            bad.append('wrote past %sIsSafeGroup_deep octets of the stack' % pre)
         setgroup(q)
     if bad:
-        return ('%sSeemsValidGroup:hasse' % pre, {'cfg': c.cfg, 'kind': 'std_group', 'spec': list(c.spec), 'G': list(G), 'q': hex(q), 'h': h, 'binary': binary,
+        return ('%s%s' % (pre, 'IsSafeGroup:mov' if 'IsSafeGroup' in bad[0] else 'SeemsValidGroup:hasse'), {'cfg': c.cfg, 'kind': 'std_group', 'spec': list(c.spec), 'G': list(G), 'q': hex(q), 'h': h, 'binary': binary,
                                                    'N0': hex(N0)},
-                '%sSeemsValidGroup [%s, cfg %s]: %s' % (pre, spec_str(c.spec), c.cfg, '; '.join(bad[:4]))), calls
+                'group validators of %s.h [%s, cfg %s]: %s' % (pre, spec_str(c.spec), c.cfg, '; '.join(bad[:4]))), calls
     return None, calls
 
 def std_cell(case):
